@@ -61,7 +61,10 @@ check("C06", level="model_checking", engine="nx",
       technique="exhaustive schedule DFS with concurrency-limit, at-most-once, liveness (hang/stuck/horizon) and idle-slot monitors",
       text="On every schedule: running <= -j, per pool <= depth, console <= 1, each statement at most once per manifest cycle, "
            "no hang (wait with nothing running), never 'stuck', and no wait while a later-started statement was startable.",
-      note=NX_NOTE + " Jobserver token accounting is not covered yet by this check (planned: engine B with a real FIFO).",
+      note=NX_NOTE + " Engine B adds the real SubprocessSet: the unmodified executable as a client of a real FIFO jobserver "
+           "(tokens before = tokens after on every path, running <= tokens held + 1 at every sample), manifest regeneration and "
+           "failing completions under a jobserver, and a tool that closes its output early next to ordinary commands (the real "
+           "poll loop must go on reaping and starting).",
       design_ref="5/C06")
 
 check("C03", level="model_checking", engine="nx",
@@ -81,8 +84,11 @@ check("C07", level="fault_enumeration", engine="nx",
            "further operations: the next invocation must start normally and, after exit 0, clean-build and convergence "
            "oracles must hold; interrupted builds exit 130, remove the lock file, modified outputs (always for depfile "
            "statements) and depfiles of killed commands.",
-      note=NX_NOTE + " Death is modelled at libc-call granularity on an in-memory file system; real signals, process groups "
-           "and kernel write atomicity are outside this engine (planned: engine B).", design_ref="5/C07")
+      note=NX_NOTE + " Death is modelled at libc-call granularity on an in-memory file system. Engine B adds real signals on the "
+           "unmodified executable: SIGINT/SIGTERM/SIGHUP/SIGKILL at each of the first three waits of fresh and incremental builds "
+           "(to the process and, for console commands, to the process group as a terminal does), with and without partially written "
+           "outputs, and an interrupt that arrives while ninja is outside ppoll() (pending, found by sigpending()); exit 130, lock file "
+           "gone, no surviving command, recovery build equals a clean build.", design_ref="5/C07")
 
 check("C08", level="model_checking", engine="lx",
       technique="explicit-state BFS over log operation sequences x every tear offset x continuations on the real BuildLog, independent reference reader",
